@@ -65,6 +65,17 @@ func shrink(engine, bin string, rf *proto.ReplayFile, deadline time.Time) *proto
 				delete(st, "decoy_per_mille")
 				return true
 			})
+			// fewer workers
+			for _, nw := range []float64{1, 2, 3, 4, 8} {
+				withCfg(func(m map[string]any) bool {
+					cur, _ := m["workers"].(float64)
+					if nw >= cur {
+						return false
+					}
+					m["workers"] = nw
+					return true
+				})
+			}
 			// drop crafted hashes one by one (from the end)
 			for {
 				var m map[string]any
